@@ -3,6 +3,7 @@
 # driver, collecting monitor findings and correspondence mismatches).
 import json
 import os
+import subprocess
 import re
 import time
 
@@ -31,7 +32,7 @@ PROPS = {
     "C11": dict(props_file="props/C11.v", needs_gen=True, engines=[("geom", dict(quick=[("C11", 4000)], thorough=[("C11", 200000)])), ("cli", dict(quick=3, thorough=40))],
                 design="DESIGN.md section 4 C11"),
     "C08": dict(props_file="props/C08.v", needs_gen=True,
-                engines=[("opt", dict(focus="C08", quick=150, thorough=3000)),
+                engines=[("opt", dict(focus="C08", quick=150, thorough=3000, coqeval_quick=4, coqeval_thorough=30)),
                          ("geom", dict(quick=[("C08", 1200)], thorough=[("C08", 40000)]))],
                 design="DESIGN.md section 4 C08",
                 assumptions=["no sampled value is NaN (premise of the binary64 range theorem; monitored on every recorded proposal)"]),
@@ -66,13 +67,13 @@ PROPS = {
                 trusted=[CLI_TRUST]),
     "C06": dict(props_file="props/C06.v", engines=[("opt", dict(focus="C06", quick=250, thorough=6000, coqeval_quick=8, coqeval_thorough=60))],
                 design="DESIGN.md section 4 C06"),
-    "C07": dict(props_file="props/C07.v", engines=[("opt", dict(focus="C07", quick=250, thorough=6000))],
+    "C07": dict(props_file="props/C07.v", engines=[("opt", dict(focus="C07", quick=250, thorough=6000, coqeval_quick=6, coqeval_thorough=40))],
                 design="DESIGN.md section 4 C07"),
-    "C18": dict(props_file="props/C18.v", engines=[("opt", dict(focus="C18", quick=250, thorough=6000))],
+    "C18": dict(props_file="props/C18.v", engines=[("opt", dict(focus="C18", quick=250, thorough=6000, coqeval_quick=6, coqeval_thorough=40))],
                 design="DESIGN.md section 4 C18", trusted=[CLI_TRUST]),
-    "C19": dict(props_file="props/C19.v", engines=[("opt", dict(focus="C19", quick=250, thorough=6000)), ("cli", dict(quick=0, thorough=2, step_probe=True))],
+    "C19": dict(props_file="props/C19.v", engines=[("opt", dict(focus="C19", quick=250, thorough=6000, coqeval_quick=6, coqeval_thorough=40)), ("cli", dict(quick=0, thorough=2, step_probe=True))],
                 design="DESIGN.md section 4 C19", trusted=[CLI_TRUST]),
-    "C20": dict(props_file="props/C20.v", engines=[("opt", dict(focus="C20", quick=250, thorough=6000)), ("cli", dict(quick=2, thorough=30))],
+    "C20": dict(props_file="props/C20.v", engines=[("opt", dict(focus="C20", quick=250, thorough=6000, coqeval_quick=6, coqeval_thorough=40)), ("cli", dict(quick=2, thorough=30))],
                 design="DESIGN.md section 4 C20", trusted=[CLI_TRUST]),
 }
 
@@ -171,18 +172,28 @@ def opt_run(prop, specs, tag, coqeval=0):
         return res
 
     def run_shard(p):
-        return sh([DRIVER, "opt", p], timeout=3000)
+        env = dict(os.environ)
+        if coqeval:
+            env["VH_LIBM_LOG"] = "1"   # the libm values of each case, for the evaluation inside Coq
+        pr = subprocess.run([DRIVER, "opt", p], stdout=subprocess.PIPE, stderr=subprocess.STDOUT, env=env, timeout=3000)
+        return pr.returncode, pr.stdout.decode("utf-8", "replace")
 
     verdicts = {}
+    libm = {}
     with concurrent.futures.ThreadPoolExecutor(max_workers=16) as ex:
         for rc, out in ex.map(run_shard, shards):
             if rc != 0:
                 res["mismatches"].append(dict(engine="opt", case="(driver)", what="driver failed: " + out[-500:]))
                 continue
+            pending = []
             for l in out.split("\n"):
+                if l.startswith("Q "):
+                    pending.append(l[2:].split(" "))
                 if l.startswith("R "):
                     spec, _, verdict = l[2:].partition(" | ")
                     verdicts[spec] = verdict
+                    libm[spec] = pending
+                    pending = []
                     if verdict.startswith("OK"):
                         res["ok"] += 1
                     else:
@@ -194,7 +205,7 @@ def opt_run(prop, specs, tag, coqeval=0):
         for p in shards:
             if tot["cases"] >= coqeval:
                 break
-            r = eng_coqeval.run_opt(prop, p, min(3, coqeval - tot["cases"]), verdicts)
+            r = eng_coqeval.run_opt(prop, p, min(3, coqeval - tot["cases"]), verdicts, libm)
             tot["cases"] += r["cases"]
             tot["agree"] += r["agree"]
             tot["problems"] += r["problems"]
